@@ -101,13 +101,14 @@ theorem balLe_tryAdd {F : Feer} (mp : Pool) (t : Tx) (b : Bool) (h : BalLe F mp.
     simp only [Bool.false_eq_true, if_false]
     exact balLe_upd h0 _ _ hpf
 
-theorem balLe_insertStage {F : Feer} (mp : Pool) (t : Tx) (h : BalLe F mp.fees) :
-    BalLe F (insertStage mp t F).1.fees := by
+theorem balLe_insertStage {F : Feer} (mp : Pool) (t : Tx) (d : Nat) (h : BalLe F mp.fees) :
+    BalLe F (insertStage mp t F d).1.fees := by
   unfold insertStage
   simp only
   split
   · exact h
-  · apply balLe_tryAdd
+  · show BalLe F (tryAddSendersFee _ t F false).1.fees
+    apply balLe_tryAdd
     show BalLe F (placeLast mp t).fees
     unfold placeLast
     split
@@ -116,7 +117,7 @@ theorem balLe_insertStage {F : Feer} (mp : Pool) (t : Tx) (h : BalLe F mp.fees) 
       · exact balLe_removeFromMap { mp with txs := _ } _ h
     · exact h
 
-theorem balLe_add {F : Feer} (mp : Pool) (t : Tx) (h : BalLe F mp.fees) : BalLe F (add mp t F).1.fees := by
+theorem balLe_add {F : Feer} (mp : Pool) (t : Tx) (d : Nat) (h : BalLe F mp.fees) : BalLe F (add mp t F d).1.fees := by
   have hc := balLe_checkTxConflicts mp t h
   unfold add
   split
@@ -133,7 +134,7 @@ theorem balLe_add {F : Feer} (mp : Pool) (t : Tx) (h : BalLe F mp.fees) : BalLe 
         · exact ho
         · split
           · exact ho
-          · exact balLe_insertStage _ t (balLe_removeAll rm _ ho)
+          · exact balLe_insertStage _ t d (balLe_removeAll rm _ ho)
 
 theorem balLe_staleLoop {F : Feer} (isOK : Tx → Bool) (pc : Bool) : ∀ (rest : List Tx) (mp : Pool) (acc : List Tx),
     BalLe F mp.fees → BalLe F (staleLoop isOK F pc rest mp acc).1.fees := by
